@@ -81,6 +81,17 @@ pub fn hostile_environment(cmd: &mut Command, root: &std::path::Path, which: usi
     loaded
 }
 
+/// A working directory in which files named like the relative image references of the workloads really exist
+pub fn decoy_working_directory(cwd: &std::path::Path) {
+    for f in ["logo.png", "assets/my logo (1).svg", "assets/example.com.svg", "a", "x", "out.svg", "image.png", "-", "%PDF-1.7", "#logo", "?v=2", "iVBORw0KGgo/icons/logo.png", "R0lGODs/spinner.gif", "C:\\dir\\file.png"] {
+        let p = cwd.join(f);
+        if let Some(parent) = p.parent() {
+            let _ = std::fs::create_dir_all(parent);
+        }
+        let _ = std::fs::write(&p, b"decoy");
+    }
+}
+
 pub fn describe_profile(which: usize) -> String {
     ENV_PROFILES[which % ENV_PROFILES.len()].iter().map(|(k, v)| format!("{k}={v}")).collect::<Vec<_>>().join(" ")
 }
@@ -103,13 +114,7 @@ fn environment_stage(ctx: &Ctx, prop: &str, rep: &mut Report) {
     // the child also runs in a working directory of its own in which files with the names the workloads use as
     // relative image references really exist: output may not depend on what happens to lie on the disk
     let cwd = evdir.join("cwd");
-    for f in ["logo.png", "assets/my logo (1).svg", "assets/example.com.svg", "a", "x", "out.svg", "image.png"] {
-        let p = cwd.join(f);
-        if let Some(parent) = p.parent() {
-            let _ = std::fs::create_dir_all(parent);
-        }
-        let _ = std::fs::write(&p, b"decoy");
-    }
+    decoy_working_directory(&cwd);
     let mut cmd = Command::new(&exe);
     cmd.args(["run", prop, "--tier", "quick"]).current_dir(&cwd);
     let spy_log = evdir.join("envspy.log");
